@@ -308,8 +308,73 @@ def h_merge(eng):
     eng.prove("merge.canonical_kept", z3.BoolVal(ops.contains_expr(eng, all_states, "c") is True))
 
 
-HARNESSES = [("Model._simplify_once#alias-attribute-merge", h_merge)]
-EXPECTED_COVER = {"merge.done"}
+MODEL = "pymoca.backends.casadi.model"
+
+
+class DefaultInt(Ext):
+    """an instance of model._DefaultValue (a subclass of int with value 0): 'no start value was set'"""
+    type_names = ("_DefaultValue", "int")
+
+    def sym_unop(self, eng, op):
+        if op == "float":
+            return 0.0
+        if op == "int":
+            return 0
+        raise Unsupported("unop %s on _DefaultValue" % op)
+
+    def sym_eq(self, eng, other):
+        return other is self or (isinstance(other, (int, float)) and not isinstance(other, bool) and other == 0)
+
+
+def h_start_sentinel_survives_expansion(eng):
+    """The merge decides 'the canonical variable has no start of its own' by isinstance(start, _DefaultValue).  _simplify_once runs
+    _expand_vectors BEFORE the alias merge (expand_vectors option): the elements of an array variable must inherit the array's
+    attribute values AS THEY ARE -- in particular the _DefaultValue sentinel of an unset start stays a _DefaultValue, and an explicit
+    start stays explicit -- or an element that becomes a canonical variable no longer takes its alias's start."""
+    from . import C18
+    C18.install(eng)
+    np_ = eng.ext_modules["numpy"]
+    np_.attrs["isfinite"] = stub(lambda eng, v: True)
+    mm = eng.load_module(MODEL)
+    cls = eng.module_global(mm, "Model")
+    dv = eng.module_global(mm, "_DefaultValue")
+    # _DefaultValue is a subclass of int: numpy.isscalar is true for it
+    np_.attrs["isscalar"] = stub(lambda eng, v: isinstance(v, (int, float, bool, C18.ScalarVal, DefaultInt)))
+    np_.attrs["isfinite"] = stub(lambda eng, v: isinstance(v, (int, float)) and v == v and abs(v) != float("inf"))
+    dv.constructor = lambda eng, c, a, k: DefaultInt()
+    f = eng.find_function(MODEL, "Model._expand_vectors")
+    var_cls = eng.module_global(mm, "Variable")
+    group = ["inputs", "states", "alg_states"][eng.choice(3)]
+    explicit = bool(eng.choice(2))
+    eng.input("group", group)
+    eng.input("array_has_explicit_start", explicit)
+    sentinel = DefaultInt()
+    sym = C18.SymT("u", (3, 1), ((3,),))
+    old = VObj(var_cls, {"symbol": sym, "python_type": eng.builtins["float"], "aliases": VSet([])})
+    old.fields.update({"value": float("nan"), "min": -float("inf"), "max": 7.5, "nominal": 1, "fixed": False})
+    old.fields["start"] = 2.5 if explicit else sentinel
+    m = VObj(cls, {g: VList([]) for g in ("states", "der_states", "alg_states", "inputs", "parameters", "constants")})
+    m.fields[group] = VList([old])
+    m.fields.update({"equations": VList([]), "initial_equations": VList([]), "delay_arguments": VList([]), "delay_states": VList([]), "outputs": VList([])})
+    cls.attrs["_substitute_metadata"] = C18._rec([])
+    cls.attrs["_substitute_delay_arguments"] = C18._rec2()
+    try:
+        eng.call(VBound(f, m), [], {})
+    except PyRaise as e:
+        eng.prove("merge.start_default_sentinel_survives_vector_expansion", False, exc=repr(e.exc))
+        return
+    eng.cover("sentinel.done")
+    new = m.fields[group].items
+    ok = len(new) == 3
+    for v in new:
+        st = v.fields.get("start")
+        is_default = isinstance(st, DefaultInt)
+        ok = ok and (is_default if not explicit else (not is_default and st == 2.5))
+    eng.prove("merge.start_default_sentinel_survives_vector_expansion", z3.BoolVal(bool(ok)), starts=[repr(v.fields.get("start")) for v in new])
+
+
+HARNESSES = [("Model._simplify_once#alias-attribute-merge", h_merge), ("Model._expand_vectors keeps the unset-start sentinel", h_start_sentinel_survives_expansion)]
+EXPECTED_COVER = {"merge.done", "sentinel.done"}
 BOUNDED = True
 LEVEL = "proof"
 TRUSTED = ["pyvc VC generator", "z3 5.1.0", "ca.fmax / ca.fmin are max / min on (extended) reals; ca.MX(x).is_constant() for numbers",
@@ -323,7 +388,7 @@ DROPPED = ["logger.warning text"]
 EXPLANATION = "Fragment contract for the attribute-merging loop of alias elimination over symbolic reals with infinite defaults."
 MANIFEST = {
     "category": "proof",
-    "text": "The attribute-merging loop of alias elimination (extracted structurally from the real _simplify_once on every run) is executed symbolically for arbitrary real bounds (finite or default infinite), nominals, fixed flags, start values and 'already handled' flags, for canonical variables with 1-3 aliases of enumerated sign patterns: the resulting min/max are the intersection with min/max swapped and negated for negative aliases, nominal the largest, fixed iff any fixed, start kept or taken sign-adjusted from the first alias that has one; each processed alias is removed and substituted by sign*canonical exactly once. A bounded replay checks the same on real models through simplify().",
+    "text": "The attribute-merging loop of alias elimination (extracted structurally from the real _simplify_once on every run) is executed symbolically for arbitrary real bounds (finite or default infinite), nominals, fixed flags, start values and 'already handled' flags, for canonical variables with 1-3 aliases of enumerated sign patterns: the resulting min/max are the intersection with min/max swapped and negated for negative aliases, nominal the largest, fixed iff any fixed, start kept or taken sign-adjusted from the first alias that has one; each processed alias is removed and substituted by sign*canonical exactly once. The step that runs before the merge under expand_vectors, _expand_vectors (whole function), is verified to hand the array's unset-start sentinel (_DefaultValue) and an explicit start to every element unchanged, so 'had no start of its own' means the same for array elements. A bounded replay checks the same on real models through simplify().",
     "note": "Fragment, not whole function: what precedes the loop (all_states total on alias names, old_alias_relation a copy) is assumed; alias counts and sign patterns enumerated; ca.fmax/fmin assumed to be max/min.",
     "technique": "contract-based deductive verification: structural fragment extraction + symbolic execution over reals with distinguished infinities, z3",
 }
